@@ -266,6 +266,7 @@ func allTemplates() []chainx.Tpl {
 	out := append(ownTemplates(), designateTpl())
 	out = append(out, deepTemplates()...)
 	out = append(out, shapeTemplates()...)
+	out = append(out, syncedTemplates()...)
 	out = append(out, chainx.TplByName("gas-transfer", "vote1", "neo-transfer", "exec-fee", "policy-storage-price", "unvote1", "empty", "block-account3")...)
 	return out
 }
